@@ -17,6 +17,7 @@ MC = 'amd/driver/memorycopy.go'
 GS = 'amd/driver/memorycopyglobalstorage.go'
 DMA = 'amd/timing/cp/dma.go'
 CPM = 'amd/timing/cp/cpMiddleware.go'
+SA = 'amd/emu/storageaccessor.go'
 
 def nth(s, old, new, k):
     """replace the k-th (0-based) occurrence"""
@@ -30,8 +31,10 @@ M = [
  ('revert-flush-reply-fix', MC, lambda s: s.replace('		m.completeCopyCommand(cmd, cmdQueue)\n', '		_ = cmdQueue\n')),
  ('d2h-no-flush', MC, lambda s: nth(s, 'if m.needFlushing(queue.Context, cmd.Src, uint64(binary.Size(cmd.Dst))) {', 'if false && m.needFlushing(queue.Context, cmd.Src, uint64(binary.Size(cmd.Dst))) {', 0)),
  ('h2d-no-flush', MC, lambda s: nth(s, 'if m.needFlushing(queue.Context, cmd.Dst, uint64(binary.Size(cmd.Src))) {', 'if false && m.needFlushing(queue.Context, cmd.Dst, uint64(binary.Size(cmd.Src))) {', 0)),
- ('memRangeOverlap-inverted', MC, lambda s: s.replace('if start1 <= start2 && end1 > start2 {', 'if start1 <= start2 && end1 < start2 {').replace('if start1 < end2 && end1 >= end2 {', 'if start1 < end2 && end1 <= end2 && end1 >= end2+1 {')),
- ('memRangeOverlap-first-cond-flipped', MC, lambda s: s.replace('if start1 <= start2 && end1 > start2 {', 'if start1 <= start2 && end1 < start2 {')),
+ # (every buffer of a context is marked dirty by a kernel launch and needFlushing is an 'any' over them, so mutants
+ #  of memRangeOverlap that merely answer true for OTHER buffers are equivalent in practice; these two are not)
+ ('memRangeOverlap-always-false', MC, lambda s: s.replace('return start1 < end2 && start2 < end1', 'return start1 < end2 && start2 < end1 && false')),
+ ('memRangeOverlap-misses-strict-containment', MC, lambda s: s.replace('return start1 < end2 && start2 < end1', 'return (start1 <= start2 && end1 > start2) || (start1 < end2 && end1 >= end2)')),
  ('cp-copy-not-gated-by-flush', CPM, lambda s: nth(s, '''	if m.numCacheACK > 0 {
 		return false
 	}
@@ -64,6 +67,87 @@ M = [
 	}
 	m.cyclesLeft = m.cyclesPerH2D
 ''', 0)),
+ # --- re-homing in mid-history (Remap / Distribute of pages that are in use) ---
+ # the seeded break c11-4: per-accessor (= per emulated CU) translation cache, never invalidated
+ ('seed4-emu-accessor-translation-cache-never-invalidated', SA, lambda s: s.replace('''	log2PageSize  uint64
+}''', '''	log2PageSize  uint64
+	translated    map[[2]uint64]vm.Page
+}
+
+func (a *storageAccessorImpl) findPage(pid vm.PID, vAddr uint64) (vm.Page, bool) {
+	key := [2]uint64{uint64(pid), vAddr >> a.log2PageSize}
+	page, found := a.translated[key]
+	if !found {
+		if page, found = a.pageTable.Find(pid, vAddr); found {
+			a.translated[key] = page
+		}
+	}
+	return page, found
+}''').replace('a.pageTable.Find(pid, currVAddr)', 'a.findPage(pid, currVAddr)').replace('''	a.log2PageSize = log2PageSize
+''', '''	a.log2PageSize = log2PageSize
+	a.translated = make(map[[2]uint64]vm.Page)
+''')),
+ # one-entry cache, write path only: a CU whose last store went to page P keeps P's old frame
+ ('emu-accessor-write-keeps-last-translated-page', SA, lambda s: s.replace('''	log2PageSize  uint64
+}''', '''	log2PageSize  uint64
+	lastW         vm.Page
+	lastWValid    bool
+}''').replace('''		page, found := a.pageTable.Find(pid, currVAddr)
+		if !found {
+			panic("page not found in page table")
+		}''', '''		page, found := a.lastW, a.lastWValid
+		if !found || page.PID != pid || page.VAddr != currVAddr>>a.log2PageSize<<a.log2PageSize {
+			page, found = a.pageTable.Find(pid, currVAddr)
+			a.lastW, a.lastWValid = page, found
+		}
+		if !found {
+			panic("page not found in page table")
+		}''')),
+ # the driver's direct-storage copy path (emulation, timing + magic copy) remembers translations
+ ('emu-copy-path-caches-translations', GS, lambda s: s.replace('''import (
+	"bytes"
+	"encoding/binary"
+)''', '''import (
+	"bytes"
+	"encoding/binary"
+
+	"github.com/sarchlab/akita/v4/mem/vm"
+)
+
+var gsTranslated = map[[2]uint64]vm.Page{}
+
+func (m *globalStorageMemoryCopyMiddleware) find(pid vm.PID, addr uint64) (vm.Page, bool) {
+	key := [2]uint64{uint64(pid), addr >> 12}
+	page, found := gsTranslated[key]
+	if !found {
+		if page, found = m.driver.pageTable.Find(pid, addr); found {
+			gsTranslated[key] = page
+		}
+	}
+	return page, found
+}''').replace('m.driver.pageTable.Find(queue.Context.pid, addr)', 'm.find(queue.Context.pid, addr)')),
+ # the DMA copy path remembers translations for H2D only
+ ('dma-copy-path-h2d-caches-translations', MC, lambda s: s.replace('''	"github.com/sarchlab/akita/v4/sim"
+''', '''	"github.com/sarchlab/akita/v4/mem/vm"
+	"github.com/sarchlab/akita/v4/sim"
+''', 1).replace('''// defaultMemoryCopyMiddleware handles memory copy commands and related
+// communication.
+type defaultMemoryCopyMiddleware struct {''', '''var mcTranslated = map[[2]uint64]vm.Page{}
+
+func (m *defaultMemoryCopyMiddleware) find(pid vm.PID, addr uint64) (vm.Page, bool) {
+	key := [2]uint64{uint64(pid), addr >> 12}
+	page, found := mcTranslated[key]
+	if !found {
+		if page, found = m.driver.pageTable.Find(pid, addr); found {
+			mcTranslated[key] = page
+		}
+	}
+	return page, found
+}
+
+// defaultMemoryCopyMiddleware handles memory copy commands and related
+// communication.
+type defaultMemoryCopyMiddleware struct {''').replace('m.driver.pageTable.Find(queue.Context.pid, addr)', 'm.find(queue.Context.pid, addr)', 1)),
 ]
 
 def keys():
